@@ -264,11 +264,11 @@ impl TcpFlow {
     }
 
     fn cl_update(&mut self, bytes: u32) {
-        self.cl_seq += bytes;
+        self.cl_seq = self.cl_seq.wrapping_add(bytes);
     }
 
     fn sv_update(&mut self, bytes: u32) {
-        self.sv_seq += bytes;
+        self.sv_seq = self.sv_seq.wrapping_add(bytes);
     }
 
     fn cl_tx(&mut self, seg: TcpSeg) {
